@@ -455,3 +455,22 @@ pub fn conversation_shape(wire: &[WireEntry]) -> u64 {
     }
     crate::rng::fnv1a(s.as_bytes())
 }
+
+/// Like `gen_system`, but bounds the length of a PDR run on the system by the oracle's diameter:
+/// full-fixpoint depth and minimal bad depth <= `max_depth` (a workload bound, not a watchdog).
+pub fn gen_bounded_system(
+    rng: &mut Rng,
+    max_state_bits: u32,
+    max_input_bits: u32,
+    bv_only: bool,
+    max_depth: u32,
+    mut tweak: impl FnMut(&mut GenCfg),
+) -> Sys {
+    loop {
+        let sys = gen_system(rng, max_state_bits, max_input_bits, bv_only, &mut tweak);
+        let r = crate::refsem::reach::reach(&sys, 0);
+        if r.fixpoint_depth <= max_depth && r.min_bad_depth.map(|d| d <= max_depth).unwrap_or(true) {
+            return sys;
+        }
+    }
+}
